@@ -232,6 +232,12 @@ class StmtMixin:
             for e in self.tracked():
                 self.fact_part(e, seq)
             ex.heap[v.addr] = HSymList(seq)
+        if kind is not None and (kind == 'symdict' or (isinstance(kind, tuple) and kind[0] == 'symdict')) \
+                and isinstance(v, VRef) and isinstance(ex.heap[v.addr], HDict):
+            if ex.heap[v.addr].items:
+                raise Undecided('coercion of a non-empty dict literal to a symbolic dict')
+            vk = kind[1] if isinstance(kind, tuple) else 'any'
+            ex.heap[v.addr] = HSymDict(z3.EmptySet(Val), ex.fresh('dictlit_map', z3.ArraySort(Val, Val)), vkind=vk)
         return v
 
     def unpack(self, v, n, node):
